@@ -23,6 +23,8 @@ CONSTANTS NT, MaxPk, BufSizes, MaxNoise, MaxFaults, Emit,
           AutoSave,  \* TRUE: the auto-save directory is part of the state: transfers may share a base name, files may appear in
                      \*       the directory at any time (MaxEnv); only used with MaxFaults = 0 (a lost announcement changes the name)
           MaxEnv,    \* number of files the environment may create in the auto-save directory (any time, any base name in use)
+          Names,     \* TRUE: the alphabetical order of the file names is chosen freely (rank, incl. equal names) - the state report is checked
+          RoundRobin,\* TRUE: only round-robin interleavings (keeps the enumeration with three transfers small)
           FullLast,  \* TRUE: only files whose last package is full (keeps the auto-save enumeration small)
           DupAlso,   \* TRUE: one duplicate may be injected IN ADDITION to the single fault (used to judge the repair of #11)
           FixDup     \* TRUE: the proposed repair of finding #11 (a package below next_package is a duplicate: ignored, not counted)
@@ -37,8 +39,10 @@ VARIABLES shape,    \* [T -> [n, bs, last]]  the files
           dups,     \* [T -> number of additional duplicates injected (DupAlso)]
           base,     \* [T -> base name (an id) of the transfer's file name]; transfers may share one (AutoSave)
           dir,      \* the auto-save directory: set of [b |-> base name, c |-> content owner (transfer id, 0 = environment)]; only grows
-          dirh      \* history: the directory after every wire item
-vars == <<shape, sp, fault, wire, noise, pl, dups, base, dir, dirh>>
+          dirh,     \* history: the directory after every wire item
+          rank,     \* [T -> alphabetical rank of the transfer's file name] (equal ranks = equal names)
+          order     \* the transfers in order of occurrence (= the plugin's `transfers` vector: idx = position in it)
+vars == <<shape, sp, fault, wire, noise, pl, dups, base, dir, dirh, rank, order>>
 ASSUME AutoSave => MaxFaults = 0
 
 BIG == 1000000      \* stands for u64::MAX packages in recovery mode
@@ -57,6 +61,7 @@ Shapes == {r \in [n : 1..MaxPk, bs : BufSizes, last : 1..MaxB] : r.last <= r.bs 
 Init == /\ shape \in [T -> Shapes]
         /\ base \in (IF AutoSave THEN {f \in [T -> T] : \A t \in T : f[t] <= t /\ (f[t] = t \/ f[t] = 1)} ELSE {[t \in T |-> t]})
         /\ dir = {} /\ dirh = <<>>
+        /\ rank \in (IF Names THEN [T -> T] ELSE {[t \in T |-> t]}) /\ order = <<>>
         /\ sp = [t \in T |-> 0] /\ fault = [t \in T |-> "none"] /\ wire = <<>> /\ noise = 0
         /\ pl = [t \in T |-> NoEntry] /\ dups = [t \in T |-> 0]
 
@@ -108,14 +113,16 @@ AutoDir(t, p2) == IF AutoSave /\ pl[t].st # "Complete" /\ p2.st = "Complete" /\ 
 Send(t, m) == LET p2 == Plugin(pl[t], t, m)
                   d2 == AutoDir(t, p2)
               IN /\ pl' = [pl EXCEPT ![t] = p2] /\ wire' = Append(wire, m) /\ dir' = d2 /\ dirh' = Append(dirh, d2)
+                 /\ order' = (IF ~pl[t].known /\ p2.known THEN Append(order, t) ELSE order)
 MayFault(t) == fault[t] = "none" /\ Cardinality({u \in T : fault[u] # "none"}) < MaxFaults
 
 Normal(t) == /\ fault[t] # "swapA" /\ sp[t] < Len(Ideal(t)) /\ Send(t, Item(t, sp[t] + 1))
+             /\ (RoundRobin => \A u \in T : sp[t] <= sp[u])
              /\ sp' = [sp EXCEPT ![t] = @ + 1] /\ UNCHANGED <<fault, noise>>
 Drop(t) == /\ MayFault(t) /\ sp[t] < Len(Ideal(t)) /\ sp' = [sp EXCEPT ![t] = @ + 1]
            /\ fault' = [fault EXCEPT ![t] = (IF Item(t, sp[t] + 1).k = "FLDA" THEN "dropPkg"
                                              ELSE IF Item(t, sp[t] + 1).k = "FLST" THEN "dropFLST" ELSE "dropFLFI")]
-           /\ UNCHANGED <<wire, pl, noise, dir, dirh>>
+           /\ UNCHANGED <<wire, pl, noise, dir, dirh, order>>
 Dup(t) == /\ MayFault(t)
           /\ \E j \in 2..sp[t] : Item(t, j).k = "FLDA" /\ Send(t, Item(t, j))
           /\ fault' = [fault EXCEPT ![t] = "dup"] /\ UNCHANGED <<sp, noise>>
@@ -133,7 +140,7 @@ Resize(t) == /\ MayFault(t) /\ sp[t] < Len(Ideal(t)) /\ Item(t, sp[t] + 1).k = "
              /\ sp' = [sp EXCEPT ![t] = @ + 1] /\ fault' = [fault EXCEPT ![t] = "resize"] /\ UNCHANGED noise
 Noise == /\ noise < MaxNoise /\ noise' = noise + 1
          /\ wire' = Append(wire, [t |-> 0, k |-> "X", pkg |-> 0, len |-> 0, orig |-> TRUE])
-         /\ dirh' = Append(dirh, dir) /\ UNCHANGED <<sp, fault, pl, dir>>
+         /\ dirh' = Append(dirh, dir) /\ UNCHANGED <<sp, fault, pl, dir, order>>
 \* environment: a file with a base name in use appears in the auto-save directory (pkg = the base name)
 Env == /\ AutoSave /\ Cardinality({e \in dir : e.c = 0}) < MaxEnv
        /\ \E b \in {base[t] : t \in T} :
@@ -141,9 +148,9 @@ Env == /\ AutoSave /\ Cardinality({e \in dir : e.c = 0}) < MaxEnv
              /\ dir' = dir \cup {[b |-> b, c |-> 0]}
              /\ wire' = Append(wire, [t |-> 0, k |-> "ENV", pkg |-> b, len |-> 0, orig |-> TRUE])
              /\ dirh' = Append(dirh, dir')
-       /\ UNCHANGED <<sp, fault, pl, noise>>
+       /\ UNCHANGED <<sp, fault, pl, noise, order>>
 
-Next == /\ UNCHANGED <<shape, base>>
+Next == /\ UNCHANGED <<shape, base, rank>>
         /\ \/ \E t \in T : (Normal(t) \/ Drop(t) \/ Dup(t) \/ SwapA(t) \/ SwapB(t) \/ Resize(t)) /\ UNCHANGED dups
            \/ \E t \in T : DupExtra(t)
            \/ Noise /\ UNCHANGED dups
@@ -183,6 +190,22 @@ DirJustified == /\ \A e, f \in dir : e.b = f.b => e = f
                 /\ \A e \in dir : e.c = 0 \/ (pl[e.c].st = "Complete" /\ base[e.c] = e.b)
                 /\ Len(dirh) = Len(wire)
 
+\* the state report (update_state, as coded): every transfer is listed twice - by occurrence and sorted by name (stable) -
+\* and every entry carries idx = the position of ITS transfer in `order`, under which the save command finds the bytes
+RECURSIVE InsertSorted(_, _)
+InsertSorted(sq, e) == IF sq = <<>> THEN <<e>>
+                       ELSE IF rank[Head(sq).label] <= rank[e.label] THEN <<Head(sq)>> \o InsertSorted(Tail(sq), e)
+                       ELSE <<e>> \o sq
+RECURSIVE SortedByName(_)
+SortedByName(sq) == IF sq = <<>> THEN <<>> ELSE InsertSorted(SortedByName(SubSeq(sq, 1, Len(sq) - 1)), sq[Len(sq)])
+ByOccurrence == [i \in 1..Len(order) |-> [label |-> order[i], idx |-> i, complete |-> pl[order[i]].st = "Complete"]]
+ByName == SortedByName(ByOccurrence)
+\* idx designates the transfer the label describes, in every list; the by-name list is ordered and a permutation
+IdxDesignates == /\ \A i \in 1..Len(ByOccurrence) : order[ByOccurrence[i].idx] = ByOccurrence[i].label
+                 /\ \A i \in 1..Len(ByName) : order[ByName[i].idx] = ByName[i].label
+                 /\ Len(ByName) = Len(order) /\ \A t \in T : pl[t].known => \E i \in 1..Len(ByName) : ByName[i].label = t
+                 /\ \A i \in 1..(Len(ByName) - 1) : rank[ByName[i].label] <= rank[ByName[i + 1].label]
+
 \* ---- scenario emission ------------------------------------------------------------------------------------
 Kind(t) == CASE pl[t].st = "none" -> "none" [] pl[t].st = "Started" -> "started" [] pl[t].st = "MissingStart" -> "missing"
              [] pl[t].st = "Complete" -> "complete" [] pl[t].st = "Incomplete" -> "incomplete"
@@ -192,5 +215,6 @@ EmitScn == (Emit /\ Finished) =>
    PrintT(<<"SCN", ToJson([shape |-> shape, wire |-> wire, kinds |-> [t \in T |-> Kind(t)], fault |-> fault,
                            saves |-> [t \in T |-> pl[t].st = "Complete"],   \* the save command yields the original bytes
                            auto |-> AutoSave, base |-> base, dir |-> dir, dirh |-> dirh,
+                           names |-> Names, rank |-> rank, by_occ |-> ByOccurrence, by_name |-> ByName,
                            contract_ok |-> (\A t \in T : LiveOk(t))])>>)
 =============================================================================
